@@ -15,7 +15,7 @@ def run(ctx):
     out = ctx.vh("filter-replay", {"cases": cases}, timeout=20000)
     ctx.add_result(out)
     ctx.assumptions += [
-        "one fixed schema (19 named elements in 4 files: nested types, map, oneof, extension, custom options with a message value, service with two methods, a file without types); the filter space is enumerated, not the schema space",
-        "known-extension retention is switched off; custom-option retention is enumerated on/off; copying and in-place modes are both run",
+        "one fixed schema (30 named elements in 5 files: nested types, map, oneof, an extension and a chain of extensions of extension types, custom options with a message value, service with two methods, a file without types); the filter space is enumerated, not the schema space",
+        "custom-option retention is enumerated on/off; known-extension retention (the default of the CLI) is enumerated on/off for filters that include something, with custom options on; with retention on the same filter is applied seven times and must give the same elements; copying and in-place modes are both run",
     ]
-    return vlib.finish(ctx, rule="every filter with 1..2 (quick) / 1..3 (thorough) names distributed over include and exclude (21 names: elements and packages) x custom options on/off x in-place/copy; result checked for error class, linking, surviving elements and fields = Keep of the specification, unchanged fields, comment attachment, idempotence; distinct = filters")
+    return vlib.finish(ctx, rule="every filter with 1..2 (quick) / 1..3 (thorough) names distributed over include and exclude (21 names: elements and packages) x custom options on/off x known-extension retention on/off x in-place/copy; result checked for error class, linking, surviving elements and fields = Keep of the specification, unchanged fields, comment attachment, idempotence; distinct = filters")
